@@ -18,7 +18,6 @@ variable (s : State)
 @[simp] theorem setObj_mc (o : ObjId) (v : Obj) : (s.setObj o v).mc = s.mc := rfl
 @[simp] theorem setObj_post (o : ObjId) (v : Obj) : (s.setObj o v).post = s.post := rfl
 @[simp] theorem setObj_now (o : ObjId) (v : Obj) : (s.setObj o v).now = s.now := rfl
-@[simp] theorem setObj_f3 (o : ObjId) (v : Obj) : (s.setObj o v).f3 = s.f3 := rfl
 
 @[simp] theorem setRec_rcd (r : Rid) (v : Rec) (i : Rid) : (s.setRec r v).rcd i = if i = r then v else s.rcd i := rfl
 @[simp] theorem setRec_obj (r : Rid) (v : Rec) : (s.setRec r v).obj = s.obj := rfl
@@ -29,7 +28,6 @@ variable (s : State)
 @[simp] theorem setRec_mc (r : Rid) (v : Rec) : (s.setRec r v).mc = s.mc := rfl
 @[simp] theorem setRec_post (r : Rid) (v : Rec) : (s.setRec r v).post = s.post := rfl
 @[simp] theorem setRec_now (r : Rid) (v : Rec) : (s.setRec r v).now = s.now := rfl
-@[simp] theorem setRec_f3 (r : Rid) (v : Rec) : (s.setRec r v).f3 = s.f3 := rfl
 
 @[simp] theorem setSem_sem (j n i : Nat) : (s.setSem j n).sem i = if i = j then n else s.sem i := rfl
 @[simp] theorem setSem_obj (j n : Nat) : (s.setSem j n).obj = s.obj := rfl
@@ -40,7 +38,6 @@ variable (s : State)
 @[simp] theorem setSem_mc (j n : Nat) : (s.setSem j n).mc = s.mc := rfl
 @[simp] theorem setSem_post (j n : Nat) : (s.setSem j n).post = s.post := rfl
 @[simp] theorem setSem_now (j n : Nat) : (s.setSem j n).now = s.now := rfl
-@[simp] theorem setSem_f3 (j n : Nat) : (s.setSem j n).f3 = s.f3 := rfl
 
 @[simp] theorem setSemUser_semUser (j : Nat) (u : Option Tid) (i : Nat) :
     (s.setSemUser j u).semUser i = if i = j then u else s.semUser i := rfl
@@ -52,7 +49,6 @@ variable (s : State)
 @[simp] theorem setSemUser_mc (j : Nat) (u : Option Tid) : (s.setSemUser j u).mc = s.mc := rfl
 @[simp] theorem setSemUser_post (j : Nat) (u : Option Tid) : (s.setSemUser j u).post = s.post := rfl
 @[simp] theorem setSemUser_now (j : Nat) (u : Option Tid) : (s.setSemUser j u).now = s.now := rfl
-@[simp] theorem setSemUser_f3 (j : Nat) (u : Option Tid) : (s.setSemUser j u).f3 = s.f3 := rfl
 
 @[simp] theorem setPc_pc (t : Tid) (p : PC) (u : Tid) : (s.setPc t p).pc u = if u = t then p else s.pc u := rfl
 @[simp] theorem setPc_obj (t : Tid) (p : PC) : (s.setPc t p).obj = s.obj := rfl
@@ -63,7 +59,6 @@ variable (s : State)
 @[simp] theorem setPc_mc (t : Tid) (p : PC) : (s.setPc t p).mc = s.mc := rfl
 @[simp] theorem setPc_post (t : Tid) (p : PC) : (s.setPc t p).post = s.post := rfl
 @[simp] theorem setPc_now (t : Tid) (p : PC) : (s.setPc t p).now = s.now := rfl
-@[simp] theorem setPc_f3 (t : Tid) (p : PC) : (s.setPc t p).f3 = s.f3 := rfl
 
 @[simp] theorem setFr_fr (t : Tid) (f : Frame) (u : Tid) : (s.setFr t f).fr u = if u = t then f else s.fr u := rfl
 @[simp] theorem setFr_obj (t : Tid) (f : Frame) : (s.setFr t f).obj = s.obj := rfl
@@ -74,7 +69,6 @@ variable (s : State)
 @[simp] theorem setFr_mc (t : Tid) (f : Frame) : (s.setFr t f).mc = s.mc := rfl
 @[simp] theorem setFr_post (t : Tid) (f : Frame) : (s.setFr t f).post = s.post := rfl
 @[simp] theorem setFr_now (t : Tid) (f : Frame) : (s.setFr t f).now = s.now := rfl
-@[simp] theorem setFr_f3 (t : Tid) (f : Frame) : (s.setFr t f).f3 = s.f3 := rfl
 
 @[simp] theorem setMc_mc (t : Tid) (m : MC) (u : Tid) : (s.setMc t m).mc u = if u = t then m else s.mc u := rfl
 @[simp] theorem setMc_obj (t : Tid) (m : MC) : (s.setMc t m).obj = s.obj := rfl
@@ -85,7 +79,6 @@ variable (s : State)
 @[simp] theorem setMc_fr (t : Tid) (m : MC) : (s.setMc t m).fr = s.fr := rfl
 @[simp] theorem setMc_post (t : Tid) (m : MC) : (s.setMc t m).post = s.post := rfl
 @[simp] theorem setMc_now (t : Tid) (m : MC) : (s.setMc t m).now = s.now := rfl
-@[simp] theorem setMc_f3 (t : Tid) (m : MC) : (s.setMc t m).f3 = s.f3 := rfl
 
 @[simp] theorem setPost_post (t : Tid) (p : Option Rid) (u : Tid) : (s.setPost t p).post u = if u = t then p else s.post u := rfl
 @[simp] theorem setPost_obj (t : Tid) (p : Option Rid) : (s.setPost t p).obj = s.obj := rfl
@@ -96,7 +89,6 @@ variable (s : State)
 @[simp] theorem setPost_fr (t : Tid) (p : Option Rid) : (s.setPost t p).fr = s.fr := rfl
 @[simp] theorem setPost_mc (t : Tid) (p : Option Rid) : (s.setPost t p).mc = s.mc := rfl
 @[simp] theorem setPost_now (t : Tid) (p : Option Rid) : (s.setPost t p).now = s.now := rfl
-@[simp] theorem setPost_f3 (t : Tid) (p : Option Rid) : (s.setPost t p).f3 = s.f3 := rfl
 
 @[simp] theorem kill_rcd (l : List Rid) (r : Rid) :
     (s.kill l).rcd r = if r ∈ l then { s.rcd r with live := false } else s.rcd r := rfl
@@ -108,7 +100,6 @@ variable (s : State)
 @[simp] theorem kill_mc (l : List Rid) : (s.kill l).mc = s.mc := rfl
 @[simp] theorem kill_post (l : List Rid) : (s.kill l).post = s.post := rfl
 @[simp] theorem kill_now (l : List Rid) : (s.kill l).now = s.now := rfl
-@[simp] theorem kill_f3 (l : List Rid) : (s.kill l).f3 = s.f3 := rfl
 
 @[simp] theorem ownerRemove_rcd (o : ObjId) (r i : Rid) :
     (ownerRemove s o r).rcd i = if i = r then { s.rcd r with waiting := false, unl := if r ∈ (s.obj o).queue then .owner else (s.rcd r).unl } else s.rcd i := rfl
@@ -121,7 +112,6 @@ variable (s : State)
 @[simp] theorem ownerRemove_sem (o : ObjId) (r : Rid) : (ownerRemove s o r).sem = s.sem := rfl
 @[simp] theorem ownerRemove_semUser (o : ObjId) (r : Rid) : (ownerRemove s o r).semUser = s.semUser := rfl
 @[simp] theorem ownerRemove_now (o : ObjId) (r : Rid) : (ownerRemove s o r).now = s.now := rfl
-@[simp] theorem ownerRemove_f3 (o : ObjId) (r : Rid) : (ownerRemove s o r).f3 = s.f3 := rfl
 
 end proj
 
